@@ -33,6 +33,90 @@ func thirdAssets(thorough bool) []thirdAsset {
 	return l
 }
 
+// probeSink records violations instead of reporting them; everything else goes to inner (if any).
+type probeSink struct {
+	inner sink
+	viols []probeViol
+}
+
+type probeViol struct {
+	assertion, detail string
+}
+
+func (p *probeSink) violation(assertion, sig, detail string, replay interface{}) {
+	p.viols = append(p.viols, probeViol{assertion, detail})
+}
+func (p *probeSink) vac(name string) {
+	if p.inner != nil {
+		p.inner.vac(name)
+	}
+}
+func (p *probeSink) reject(class string) {
+	if p.inner != nil {
+		p.inner.reject(class)
+	}
+}
+func (p *probeSink) maxExtra(key string, v float64) {
+	if p.inner != nil {
+		p.inner.maxExtra(key, v)
+	}
+}
+func (p *probeSink) transition() {
+	if p.inner != nil {
+		p.inner.transition()
+	}
+}
+
+func evalCase(sk sink, c Case) {
+	if c.Pool == "bal" {
+		evalBal(sk, c)
+	} else {
+		evalStable(sk, c)
+	}
+}
+
+type shrunkCase struct {
+	c      Case
+	detail string
+}
+
+var caseShrinkMemo = map[string]shrunkCase{}
+
+// shrinkCase normalises a violating lattice point to its minimal form: the first point, in the
+// simplest-first order of (fee, exit fee, reserve a, reserve b), with the same pool type, operation,
+// weights / scaling factors, further reserves and trade size that raises the same assertion.
+func shrinkCase(c Case, assertion string) shrunkCase {
+	key := fmt.Sprintf("%s|%s|%s|%v|%v|%v|%s", assertion, c.Pool, c.Op, c.Weights, c.Scaling, c.Reserves[2:], c.Size)
+	if m, ok := caseShrinkMemo[key]; ok {
+		return m
+	}
+	exitFees := []string{"0"}
+	if c.ExitFee != "" && c.ExitFee != "0" {
+		exitFees = exitFeeLattice
+	}
+	for _, fee := range feeLattice {
+		for _, xf := range exitFees {
+			for _, ra := range reserveLattice {
+				for _, rb := range reserveLattice {
+					cand := c
+					cand.Fee, cand.ExitFee = fee, xf
+					cand.Reserves = append([]string{ra.String(), rb.String()}, c.Reserves[2:]...)
+					ps := &probeSink{}
+					evalCase(ps, cand)
+					for _, v := range ps.viols {
+						if v.assertion == assertion {
+							m := shrunkCase{cand, v.detail}
+							caseShrinkMemo[key] = m
+							return m
+						}
+					}
+				}
+			}
+		}
+	}
+	panic("shrinkCase: the violating point itself is in the candidate set")
+}
+
 func runCase(sk *collector, c Case) {
 	c.Part = 1
 	h := sha256.Sum256([]byte(c.sig()))
@@ -40,10 +124,12 @@ func runCase(sk *collector, c Case) {
 		return
 	}
 	sk.r.States++
-	if c.Pool == "bal" {
-		evalBal(sk, c)
-	} else {
-		evalStable(sk, c)
+	ps := &probeSink{inner: sk}
+	evalCase(ps, c)
+	for _, v := range ps.viols {
+		sk.r.Extra["sum_violating_points_"+v.assertion] = asInt(sk.r.Extra["sum_violating_points_"+v.assertion]) + 1
+		m := shrinkCase(c, v.assertion)
+		sk.violation(v.assertion, m.c.sig(), m.detail, m.c)
 	}
 	if sk.r.States%997 == 1 {
 		sk.r.AddSample(c.sig())
